@@ -1547,14 +1547,16 @@ class MPO(MPSGeometry):
             Whether `self` equals `other` to the desired precision.
 
         """
+        # the window has to be large enough for the terms of *both* MPOs (is_equal is symmetric)
+        known_ranges = [mr for mr in (self.max_range, other.max_range) if mr is not None and mr < np.inf]
         if self.finite:
             num_sites = self.L
         elif max_range is not None and max_range < np.inf:
             num_sites = self.L + 2 * max_range
-        elif self.max_range is not None and self.max_range < np.inf:
-            num_sites = self.L + 2 * self.max_range
+        elif len(known_ranges) == 2:
+            num_sites = self.L + 2 * max(known_ranges)
         else:
-            num_sites = self.L + 2 * self.L
+            num_sites = self.L + 2 * max([self.L] + known_ranges)
         ov = self.overlap(other, understood_infinite=True, num_sites=num_sites)
         s_norm = self.overlap(self, understood_infinite=True, num_sites=num_sites)
         o_norm = other.overlap(other, understood_infinite=True, num_sites=num_sites)
